@@ -46,12 +46,15 @@ def main():
     for d in sorted(glob.glob("/tmp/seed/C*.out")):
         pid = os.path.basename(d)[:3]
         for pf in sorted(glob.glob(os.path.join(d, "patch_*.diff"))):
-            k = re.search(r"patch_(\d+)", pf).group(1)
+            k0 = re.search(r"patch_(\d+)", pf).group(1)
+            # later rounds are numbered after the changes already kept for the property
+            off = int(os.environ.get("SEED_OFFSET", "0"))
+            k = str(int(k0) + off)
             if (pid, k) in seen:
                 continue
             if sel and ("%s:%s" % (pid, k)) not in sel and pid not in sel:
                 continue
-            patches.append((pid, k, pf, os.path.join(d, "demo_%s.py" % k)))
+            patches.append((pid, k, pf, os.path.join(d, "demo_%s.py" % k0)))
     results = {}
     if os.path.exists(OUT):
         results = json.load(open(OUT))
